@@ -9,6 +9,7 @@ import PtaProofs.Lemmas.OrderBuild
 import PtaProofs.Lemmas.OrderScan
 import PtaProofs.Lemmas.OrderLayer
 import PtaProofs.Lemmas.OrderDiagram
+import PtaProofs.Lemmas.OrderPumlText
 namespace Pta
 open PtaSpec
 
@@ -36,15 +37,14 @@ theorem scan_verdict_perm_lemma (mt mt' : Str → Str → Bool) (base rootName :
   exact Ord.verdict_congr mt' g g' this r
 
 theorem perm_layers_lemma (mt : Str → Str → Bool) (larch larch' : LArch) (rule : Option RuleState) (g : PGraph Str)
-    (hp : larch.Perm larch') (hd : layersDisjoint mt g.nodes larch = true) :
+    (hp : larch.Perm larch') :
     (assertAppliesLayer mt ⟨some larch, rule⟩ g).cls = (assertAppliesLayer mt ⟨some larch', rule⟩ g).cls :=
-  OrdL.perm_layers mt larch larch' rule g hp hd
+  OrdL.perm_layers mt larch larch' rule g hp
 
 theorem matchLayerRule_perm_layers_lemma (mt : Str → Str → Bool) (g : PGraph Str) (a a' : LArch) (b : Behavior) (ir : Bool)
-    (ss os : List Filter) (hp : a.Perm a')
-    (hc : (updateLayerMap mt g.nodes a (((ss ++ os).filter (·.isRegex)).map (·.id))).consistent = true) :
+    (ss os : List Filter) (hp : a.Perm a') :
     (matchLayerRule mt g a b ir ss os).cls = (matchLayerRule mt g a' b ir ss os).cls :=
-  OrdL.matchLayerRule_perm_layers mt g a a' b ir ss os hp hc
+  OrdL.matchLayerRule_perm_layers mt g a a' b ir ss os hp
 
 theorem perm_layer_rule_filters_lemma (mt : Str → Str → Bool) (g : PGraph Str) (a : LArch) (s o n dir exc : Bool)
     (subs subs' objs objs' : List Filter) (hs : subs.Perm subs') (ho : objs.Perm objs') :
@@ -80,8 +80,8 @@ theorem applyAll_perm_err_same_lemma (mt : Str → Str → Bool) (g : PGraph Str
   OrdD.applyAll_perm_err_same mt g rules rules' hp e0 h hall
 
 theorem pumlParse_aggregate_lemma (content : Str) :
-    pumlParse content = (pumlBody (pyStrip content)).map fun body =>
-      pumlAggregate ((splitLines body).flatMap lineModules) ((splitLines body).filterMap lineDependency) :=
+    pumlParse content = (pumlBody (pyStrip content)).bind fun body =>
+      pumlUnify ((splitLines body).flatMap lineModules) ((splitLines body).filterMap lineDependency) :=
   OrdD.pumlParse_eq content
 
 theorem aggregate_perm_lemma (modules modules' : List PModule) (rawDeps rawDeps' : List (Str × Str))
@@ -90,12 +90,44 @@ theorem aggregate_perm_lemma (modules modules' : List PModule) (rawDeps rawDeps'
     (∀ k v, (pumlAggregate modules rawDeps).hasDep k v = (pumlAggregate modules' rawDeps').hasDep k v) :=
   OrdD.aggregate_perm modules modules' rawDeps rawDeps' hm hd hc
 
-theorem diagram_lines_perm_lemma (lines lines' : List Str) (h : lines.Perm lines')
-    (hc : aliasesConsistent (lines.flatMap lineModules) = true) :
-    (∀ x, x ∈ (pumlAggregate (lines.flatMap lineModules) (lines.filterMap lineDependency)).modules ↔
-      x ∈ (pumlAggregate (lines'.flatMap lineModules) (lines'.filterMap lineDependency)).modules) ∧
-    (∀ k v, (pumlAggregate (lines.flatMap lineModules) (lines.filterMap lineDependency)).hasDep k v =
-      (pumlAggregate (lines'.flatMap lineModules) (lines'.filterMap lineDependency)).hasDep k v) :=
-  OrdD.aggregate_perm _ _ _ _ (OrdD.lines_perm h).1 (OrdD.lines_perm h).2 hc
+theorem unify_perm_lemma (modules modules' : List PModule) (rawDeps rawDeps' : List (Str × Str))
+    (hm : modules.Perm modules') (hd : rawDeps.Perm rawDeps') :
+    SameDiagram (pumlUnify modules rawDeps) (pumlUnify modules' rawDeps') :=
+  OrdD.unify_perm modules modules' rawDeps rawDeps' hm hd
+
+theorem alias_check_perm_lemma (modules modules' : List PModule) (hm : modules.Perm modules') :
+    aliasesConsistent modules = aliasesConsistent modules' := OrdD.aliasesConsistent_perm hm
+
+theorem diagram_lines_perm_lemma (lines lines' : List Str) (h : lines.Perm lines') :
+    SameDiagram (pumlUnify (lines.flatMap lineModules) (lines.filterMap lineDependency))
+      (pumlUnify (lines'.flatMap lineModules) (lines'.filterMap lineDependency)) :=
+  OrdD.unify_perm _ _ _ _ (OrdD.lines_perm h).1 (OrdD.lines_perm h).2
+
+theorem sameDiagram_iff_lemma (x y : Except ErrKind Parsed') :
+    SameDiagram x y ↔ (x = .error .pumlParsingError ∧ y = .error .pumlParsingError) ∨
+      ∃ p q, x = .ok p ∧ y = .ok q ∧ (∀ m, m ∈ p.modules ↔ m ∈ q.modules) ∧ (∀ k v, p.hasDep k v = q.hasDep k v) :=
+  OrdD.sameDiagram_iff x y
+
+theorem diagram_parse_perm_lemma (content content' body body' : Str)
+    (hb : pumlBody (pyStrip content) = .ok body) (hb' : pumlBody (pyStrip content') = .ok body')
+    (h : (splitLines body).Perm (splitLines body')) :
+    SameDiagram (pumlParse content) (pumlParse content') :=
+  OrdD.parse_perm content content' body body' hb hb' h
+
+theorem diagram_text_perm_lemma (n1 n2 : Str) (lines lines' : List Str) (hp : lines.Perm lines')
+    (hl : ∀ l ∈ lines, '\n' ∉ l ∧ '@' ∉ l) (hn : isInfix "@enduml".toList n2 = false) :
+    SameDiagram (pumlParse (linesText n1 lines n2)) (pumlParse (linesText n1 lines' n2)) :=
+  OrdT.text_perm n1 n2 lines lines' hp hl hn
+
+theorem parse_linesText_lemma (n1 n2 : Str) (lines : List Str) (hl : ∀ l ∈ lines, '\n' ∉ l ∧ '@' ∉ l)
+    (hn : isInfix "@enduml".toList n2 = false) :
+    pumlParse (linesText n1 lines n2) = pumlUnify (lines.flatMap lineModules) (lines.filterMap lineDependency) :=
+  OrdT.parse_linesText n1 n2 lines hl hn
+
+theorem eq_error_of_check_lemma (x : Except ErrKind Parsed') (h : isParsingError x = true) :
+    x = .error .pumlParsingError := by
+  cases x with
+  | ok p => cases h
+  | error e => cases e <;> first | rfl | cases h
 
 end Pta
